@@ -22,6 +22,9 @@ Families
      positions (identifier / parameter / Returns) in a fixed skeleton, plus every identifier form
      and plain symbols whose names merely begin with SECTION / ACTION, under every layout
   P  ordered pairs of annotations in one field, under every annotation-relevant layout
+  S  text with one of the 8 characters \\x0b \\x0c \\x1c \\x1d \\x1e \\x85 U+2028 U+2029 (line boundaries for
+     str.splitlines(), but not comment line endings) in the middle of a line of an identifier annotation
+     value, a parameter / block / tag description
   B  every model built from an identifier menu x <=2 parameters x description menu x <=2 tags,
      under a covering set of layouts (quick) / a larger product (thorough)
 """
@@ -134,6 +137,29 @@ def models_A():
     return out
 
 
+def models_S():
+    """Text containing, in the middle of a line, a character that is white space / a Unicode line
+    boundary but not a line ending: it must come back inside the same single line."""
+    out = []
+    for c in B.ODD_SEPARATORS:
+        w = 'left' + c + 'right'
+        out.append({'ident': ['symbol', 'foo_bar', None], 'ann': [['attributes', ['dict', [['my.key', 'x' + c + 'y']]]]],
+                    'params': [dict(SKEL_PARAM)], 'desc': SKEL_DESC, 'tags': [dict(SKEL_RET)]})
+        out.append({'ident': ['symbol', 'foo_bar', None], 'ann': [],
+                    'params': [{'name': 'p', 'ann': [['nullable', None]], 'desc': [['a', w, 'value'], ['second', w]]}],
+                    'desc': SKEL_DESC, 'tags': [dict(SKEL_RET)]})
+        out.append({'ident': ['property', 'FooBar', 'some-prop'], 'ann': [], 'params': [],
+                    'desc': [[[0, ['Does', w, 'things.']], [2, ['code', w + ';']]], [[0, [w, 'again']]]], 'tags': []})
+        out.append({'ident': ['symbol', 'foo_bar', None], 'ann': [], 'params': [dict(SKEL_PARAM)], 'desc': SKEL_DESC,
+                    'tags': [{'name': 'returns', 'ann': [['transfer', ['list', ['full']]]], 'value': None,
+                              'desc': [[['a', w, 'result']], [['more', w]]]},
+                             {'name': 'since', 'ann': [], 'value': '2.0', 'desc': [[['some', w, 'text']]]}]})
+        out.append({'ident': ['section', 'foo_bar', None], 'ann': [],
+                    'params': [{'name': 'short_description', 'ann': [], 'desc': [['about', w]]}],
+                    'desc': [[[0, [w]]]], 'tags': []})
+    return out
+
+
 def models_P(tier):
     out = []
     for pos in (B.I, B.P, B.R):
@@ -178,6 +204,15 @@ def layouts_for(family, tier):
             return list(B.all_layouts())
         lays = list(B.all_layouts(['indent', 'eol', 'ann', 'colon', 'gap']))
         return lays + [l for l in B.one_dim_layouts() if l not in lays]
+    if family == 'S':
+        lays = list(B_LAYOUTS) + list(B.all_layouts(['eol', 'wrap', 'ann']))
+        if tier == 'thorough':
+            lays += B.one_dim_layouts()
+        out = []
+        for l in lays:
+            if l not in out:
+                out.append(l)
+        return out
     if family == 'P':
         if tier == 'thorough':
             return list(B.all_layouts(['eol', 'ann', 'colon', 'gap']))
@@ -271,6 +306,8 @@ def _family_models(family, tier):
         return models_A()
     if family == 'P':
         return models_P(tier)
+    if family == 'S':
+        return models_S()
     return models_B(tier)
 
 
@@ -361,7 +398,7 @@ def run(ctx):
     only = [f for f in os.environ.get('VERIF_FAMILIES', '').split(',') if f]
     if only:
         ctx.cap('family filter VERIF_FAMILIES=%s (debugging aid; default runs all families)' % ','.join(only))
-    for family in ('A', 'P', 'B'):
+    for family in ('A', 'P', 'S', 'B'):
         if only and family not in only:
             continue
         models = _family_models(family, tier)
@@ -374,7 +411,7 @@ def run(ctx):
     bounds['layout_dimensions'] = dict((d, len(B.DIMS[d])) for d in B.DIM_ORDER)
     ctx.set(rule='E1: every block model of families A (each annotation name x documented shape + unknown names at '
                  'identifier/parameter/Returns), P (ordered pairs of annotations in one field), B (identifier menu x '
-                 '<=2 parameters x description menu x <=2 tags) is rendered under every layout of the family\'s layout '
+                 '<=2 parameters x description menu x <=2 tags), S (odd separator characters inside a line) is rendered under every layout of the family\'s layout '
                  'set (distinct renderings only), parsed by the real parser and compared with the view computed from '
                  'the model; the parsed block is written with the real writer (indent on/off), re-parsed and compared. '
                  'non-trivial = distinct model (the oracle is MUST on the tree for every model); unspecified = cases '
